@@ -270,6 +270,12 @@ pub fn run_worker(
     skip: &[u64],
 ) -> i32 {
     crate::panics::install_hook();
+    // a runaway allocation must kill this worker (an observation), not the machine
+    let lim = libc::rlimit { rlim_cur: 6 << 30, rlim_max: 6 << 30 };
+    // SAFETY: plain syscall with a valid struct
+    unsafe {
+        libc::setrlimit(libc::RLIMIT_AS, &lim);
+    }
     if let Err(e) = prop.self_test() {
         eprintln!("[harness] self-test failed: {e}");
         return 3;
